@@ -318,7 +318,8 @@ PROPS['C17'] = {
         'files': {'src/beacon.rs': ['kani/beaconblocks.rs.in']},
         'harnesses': [K('beacon::__verif_beaconblocks::', 'beacon_age_window_is_cyclic_distance', 'age test of peerlist_decode: rejected <=> cyclic distance of the 16-bit hour stamps > ttl, in either direction; all 2^48 triples', fns=['beacon::BeaconSerializer::peerlist_decode (block: age test)'])],
     },
-    'native_search': {'base62::lemma_roundtrip_any_body': {'file': 'native/beacon_roundtrip.rs', 'attach': 'src/beacon.rs', 'test': 'beacons_round_trip_for_every_hour'},
+    'native_search': {'kani::beaconblocks::beacon_age_window_is_cyclic_distance': {'file': 'native/beacon_age.rs', 'attach': 'src/beacon.rs', 'test': 'beacon_age_window_is_cyclic'},
+                      'base62::lemma_roundtrip_any_body': {'file': 'native/beacon_roundtrip.rs', 'attach': 'src/beacon.rs', 'test': 'beacons_round_trip_for_every_hour'},
                       r'beacon::BeaconSerializer::mask_with_keystream': {'file': 'native/beacon_long_text.rs', 'attach': 'src/beacon.rs', 'test': 'long_beacon_bodies_do_not_panic'}},
     'trusted': [
         'SHA-512 key stream as an uninterpreted function ks(password, type, seed, block) of length 64; R6: SmallVec<[u8;64]> modelled by Vec<u8>',
